@@ -74,7 +74,8 @@ def random_case(draw):
     nterm = draw(st.integers(1, 5))
     # "stub" = the key-only term that data.term_from_key(label) makes (what Tag(key=...) and an AOEF reload produce): it shares its
     # label with fully specified terms of the same label but is a different term
-    terms = [[draw(st.sampled_from(["n1", "n2", "n3", "stub"])), draw(st.sampled_from(["L1", "L2", "L3"]))] for _ in range(nterm)]
+    # third entry: an additional (undeclared) attribute of the term - terms that differ only there are different terms
+    terms = [[draw(st.sampled_from(["n1", "n2", "n3", "stub"])), draw(st.sampled_from(["L1", "L2", "L3"])), draw(st.sampled_from([None, None, "1", "2"]))] for _ in range(nterm)]
     cand = [[draw(st.integers(0, nterm - 1)), draw(st.sampled_from(["a", "b", "c", ""]))] for _ in range(draw(st.integers(1, 14)))]
     nv = draw(st.integers(0, min(12, len(cand))))
     tags = draw(st.lists(st.integers(0, len(cand) - 1), min_size=0, max_size=10))
@@ -204,7 +205,10 @@ def check_small(spec, ctx):
 def check_random(spec, ctx):
     from soundevent import data
 
-    terms = [data.term_from_key(l) if n == "stub" else data.Term(name=f"ns:{n}", label=l, definition="d") for n, l in spec["terms"]]
+    terms = [
+        data.term_from_key(t_[1]) if t_[0] == "stub" else data.Term(name=f"ns:{t_[0]}", label=t_[1], definition="d", **({"version": t_[2]} if len(t_) > 2 and t_[2] else {}))
+        for t_ in spec["terms"]
+    ]
     cand = [data.Tag(term=copy.deepcopy(terms[i]) if k % 2 else terms[i], value=v) for k, (i, v) in enumerate(spec["cand"])]
     vocab = []
     for t in cand:
